@@ -208,6 +208,21 @@ def check_property_file(pid):
             "checker_cmd": "make -C coq <deps>; coqc -Q . Imdl Properties/%s.v (Coq 8.16.1, full .vo)" % pid}
 
 
+def coqchk_property(pid, timeout=1500):
+    """Independent re-check of the compiled property file and everything it depends on
+    (thorough tier). Returns (ok, axioms_text, log)."""
+    rc, out = sh(["coqchk", "-o", "-silent", "-Q", COQ, "Imdl", "-Q", os.path.join(CACHE, "props"), "", pid],
+                 cwd=VERIF, timeout=timeout)
+    m = re.search(r"\* Axioms:(.*?)\n\s*\n\* Constants/Inductives relying on type-in-type:(.*?)\n\s*\n"
+                  r"\* Constants/Inductives relying on unsafe \(co\)fixpoints:(.*?)\n\s*\n"
+                  r"\* Inductives whose positivity is assumed:(.*?)\n", out, re.S)
+    if rc != 0 or not m:
+        return False, None, out[-3000:]
+    parts = [x.strip() for x in m.groups()]
+    ok = all(x == "<none>" for x in parts)
+    return ok, {"axioms": parts[0], "type_in_type": parts[1], "unsafe_fix": parts[2], "positivity_assumed": parts[3]}, out[-1500:]
+
+
 def _end_line(src, name):
     m = re.search(r"(Theorem|Lemma|Example|Corollary|Fact)\s+" + re.escape(name) + r"\b", src)
     if not m:
@@ -559,6 +574,12 @@ class Ctx:
             res["ok"] = False
         if not ok_t:
             res["ok"] = False
+        if self.thorough and res["ok"]:
+            ok_c, summary, clog = coqchk_property(pid)
+            res["coqchk"] = {"ok": ok_c, "summary": summary}
+            if not ok_c:
+                res["ok"] = False
+                res["log"] = "coqchk -o did not report an axiom-free, check-respecting context:\n" + clog
         self.obl = res
         return res
 
@@ -605,7 +626,7 @@ class Ctx:
             "obligations": n_obl, "discharged": n_dis,
             "obligation_list": [{"name": o["name"], "discharged": o["discharged"], "assumptions": o["assumptions"]}
                                 for o in obl["obligations"]],
-            "checker_cmd": obl.get("checker_cmd", ""),
+            "checker_cmd": obl.get("checker_cmd", "") + ("; coqchk -o -silent (independent checker): %s" % json.dumps(obl["coqchk"]) if obl.get("coqchk") else ""),
             "trusted_base": trusted_base,
             "distinct_nontrivial": len(self.nontrivial),
             "rule": rule,
